@@ -342,10 +342,7 @@ class C12(RS.StepProp):
         return None
 
     def known_class(self, case, impl, code):
-        # shared_atom_names was repaired in /repo 8dbd471; what is left: two atoms first named in two different
-        # earlier coarse nodes meet in a later one (mirror of MapDefs.two_owners)
-        if case['kind'] == 'step' and impl.get('two_owners') and code == 5:
-            return 'shared_from_two_owners'
+        # shared_atom_names (/repo 8dbd471) and shared_from_two_owners (/repo e15e5bd) are repaired: nothing is excused
         return None
 
     def nontrivial(self, case, impl):
